@@ -62,6 +62,7 @@ type ContentDef struct {
 	SubjAlg  string // algorithm the subject is referenced with
 	AT       string // declared artifactType (short) or ""
 	Annot    bool   // carries annotations
+	Big      int    // > 0: an additional annotation of that many bytes (a descriptor that does not fit on a small referrers page)
 	NoMT     bool   // omit the mediaType field in the body
 	Pad      int    // trailing whitespace appended to the body
 	Len      int    // length for plain blobs
@@ -100,6 +101,8 @@ var stdDefs = []ContentDef{
 	{ID: "a6", Kind: "image", MT: "oci.image", Cfg: "b1", CfgMT: types.MediaTypeOCI1Empty, Layers: []string{}, Subject: "x1", AT: "at1"},
 	{ID: "a7", Kind: "image", MT: "oci.image", Cfg: "b1", CfgMT: types.MediaTypeOCI1Empty, Layers: []string{"b3"}, Subject: "m2", AT: "at1"},
 	{ID: "a9", Kind: "image", MT: "oci.image", Cfg: "b1", CfgMT: types.MediaTypeOCI1Empty, Layers: []string{"b2"}, Subject: "m1", AT: "at1"},
+	{ID: "a10", Kind: "image", MT: "oci.image", Cfg: "b1", CfgMT: types.MediaTypeOCI1Empty, Layers: []string{}, Subject: "m1", AT: "at1", Big: 700},
+	{ID: "a11", Kind: "image", MT: "oci.image", Cfg: "b1", CfgMT: types.MediaTypeOCI1Empty, Layers: []string{"b2"}, Subject: "m1", AT: "at2", Big: 640},
 	{ID: "a8", Kind: "image", MT: "oci.image", Cfg: "b1", CfgMT: types.MediaTypeOCI1Empty, Layers: []string{}, Subject: "m1", SubjAlg: "sha512", AT: "at1"},
 }
 
@@ -346,6 +349,9 @@ func (c *Catalogue) realise(d *ContentDef, rng *rand.Rand) ([]byte, error) {
 			// make every manifest unique per seed
 			m.Annotations = map[string]string{"org.example.id": fmt.Sprintf("%s-%d", d.ID, rng.Intn(1<<30))}
 		}
+		if d.Big > 0 {
+			m.Annotations["org.example.big"] = strings.Repeat("x", d.Big)
+		}
 		b, err := json.Marshal(m)
 		if err != nil {
 			return nil, err
@@ -503,7 +509,21 @@ func (c *Catalogue) Header() map[string]any {
 	digs := map[string]any{}
 	for _, s := range c.ProbeDigs() {
 		a, cid := splitSym(s)
-		digs[s] = map[string]any{"a": a, "c": cid}
+		// page1: size of a referrers page that holds only the descriptor of this manifest (0: not a referrer)
+		page1 := 0
+		if ct, ok := c.C[cid]; ok && ct.Def.Kind != "blob" && ct.Def.Subject != "" {
+			at := c.EffAT(cid)
+			if l, ok := atLong[at]; ok {
+				at = l
+			} else if strings.HasPrefix(at, "cfg:") {
+				at = at[4:]
+			}
+			d := types.Descriptor{MediaType: mtLong[ct.Def.MT], Digest: digest.Digest(c.SymDig[s]), Size: int64(len(ct.Bytes)), ArtifactType: at, Annotations: c.Annotations(cid)}
+			if b, err := json.Marshal(types.Index{SchemaVersion: 2, MediaType: types.MediaTypeOCI1ManifestList, Manifests: []types.Descriptor{d}}); err == nil {
+				page1 = len(b)
+			}
+		}
+		digs[s] = map[string]any{"a": a, "c": cid, "page1": page1}
 	}
 	return map[string]any{
 		"blobs": blobs, "mans": mans, "digs": digs, "tags": c.Tags, "repos": c.Repos, "ats": c.ATs, "order": c.Order,
